@@ -187,6 +187,22 @@ def comps_to_loops(fn):
     return fn
 
 
+def ifexp_to_if(fn):
+    """`x = a if c else b` -> `if c: x = a` / `else: x = b`; the same for `return a if c else b` (also nested)."""
+    for _ in range(4):
+        changed = False
+        for lst in list(_stmt_lists(fn)):
+            for i, st in enumerate(lst):
+                if isinstance(st, (ast.Assign, ast.AnnAssign, ast.Return)) and isinstance(st.value, ast.IfExp):
+                    a, b = _copy.deepcopy(st), _copy.deepcopy(st)
+                    a.value, b.value = st.value.body, st.value.orelse
+                    lst[i] = ast.copy_location(ast.If(test=st.value.test, body=[a], orelse=[b]), st)
+                    changed = True
+        if not changed:
+            break
+    return fn
+
+
 def _ends(stmts) -> bool:
     """Does the statement list always leave the function (return / raise) at its end?"""
     if not stmts:
@@ -508,6 +524,7 @@ def subst_aliases(fn):
 
 def normalise(fn, tree, cls=None, repo=None, rel=None, loops=True):
     fn = _copy.deepcopy(fn)
+    ifexp_to_if(fn)
     if loops:
         comps_to_loops(fn)
     a = fn.args
@@ -515,10 +532,12 @@ def normalise(fn, tree, cls=None, repo=None, rel=None, loops=True):
     if any(ast.unparse(d) == "staticmethod" for d in fn.decorator_list):
         first = None
     _Inliner(fn, _Resolver(tree, cls, repo, rel), first)._process(fn, [fn.name])
+    ifexp_to_if(fn)
     if loops:
         comps_to_loops(fn)
     subst_aliases(fn)
     ast.fix_missing_locations(fn)
+    fn._tree = tree
     return fn
 
 
@@ -685,8 +704,11 @@ def custom_copy(tree, cls: str) -> list[tuple[str, str]]:
 
 
 def copy_site(fn: ast.FunctionDef, src_name: str, what: str) -> str:
-    """Deep iff: exactly one `<v> = deepcopy(<src>)`, every `.set(` receiver is <v>, <v> is returned/stored."""
+    """Deep iff: exactly one `<v> = deepcopy(<src>)` (<v>: a local name or `self.<attr>`), every `.set(` receiver is <v>,
+    <v> is returned / stored / appended to the result."""
     is_src = lambda e: isinstance(e, ast.Name) and e.id == src_name
+    key = lambda e: e.id if isinstance(e, ast.Name) else (
+        ast.unparse(e) if self_attr(e) is not None and src_name != "self" else None)
     bound = []
     for st in ast.walk(fn):
         tgt = val = None
@@ -694,25 +716,25 @@ def copy_site(fn: ast.FunctionDef, src_name: str, what: str) -> str:
             tgt, val = st.targets[0], st.value
         elif isinstance(st, ast.AnnAssign) and st.value is not None:
             tgt, val = st.target, st.value
-        if isinstance(tgt, ast.Name) and val is not None:
+        if tgt is not None and key(tgt) is not None and val is not None:
             c = classify(val, is_src)
             if c is not None:
-                bound.append((tgt.id, c[0]))
+                bound.append((key(tgt), c[0]))
             elif isinstance(val, ast.List) and len(val.elts) == 1 and classify(val.elts[0], is_src):
-                bound.append((tgt.id, classify(val.elts[0], is_src)[0]))
+                bound.append((key(tgt), classify(val.elts[0], is_src)[0]))
     if len(bound) != 1:
         raise TranslationError(f"{what}: expected exactly one `<v> = deepcopy({src_name})`, found {bound}")
     v, mode = bound[0]
     for node in ast.walk(fn):
         if isinstance(node, ast.Call) and isinstance(node.func, ast.Attribute) and node.func.attr == "set":
             recv = node.func.value
-            if not isinstance(recv, ast.Name):
+            if key(recv) is None:
                 fail(node, f"{what}: .set on an expression")
-            if recv.id == src_name:
+            if key(recv) == src_name:
                 mode = "Alias"  # the caller's object is modified
-            elif recv.id != v:
+            elif key(recv) != v:
                 fail(node, f"{what}: .set on an unknown object")
-    used = False
+    used = "." in v                                   # bound to self.<attr>: stored
     for node in ast.walk(fn):
         if isinstance(node, ast.Return) and isinstance(node.value, ast.Name):
             if node.value.id == v:
@@ -726,9 +748,12 @@ def copy_site(fn: ast.FunctionDef, src_name: str, what: str) -> str:
                 used = True
             elif node.args[0].id == src_name:
                 mode, used = "Alias", True
-        if isinstance(node, (ast.Assign, ast.AnnAssign)) and isinstance(getattr(node, "value", None), ast.Name) \
-                and node.value.id == v:
-            used = True
+        if isinstance(node, (ast.Assign, ast.AnnAssign)) and isinstance(getattr(node, "value", None), ast.Name):
+            tgts = node.targets if isinstance(node, ast.Assign) else [node.target]
+            if node.value.id == v and any(isinstance(t, (ast.Attribute, ast.Subscript)) for t in tgts):
+                used = True                                 # stored in an attribute / container
+            elif node.value.id == src_name and any(self_attr(t) is not None for t in tgts) and src_name != "self":
+                mode, used = "Alias", True                  # the caller's own object is stored
     if not used:
         raise TranslationError(f"{what}: the copy `{v}` is neither returned nor stored")
     return mode
@@ -812,7 +837,24 @@ def _bindings(fn):
                     yield _target_names(it.optional_vars), it.context_expr
 
 
+def _stores(fn):
+    """(root name of the target, value) of every attribute / item store `x.a.b = v`, `x[k] = v`, `x.a += v`."""
+    for st in ast.walk(fn):
+        tgts = st.targets if isinstance(st, ast.Assign) else \
+            [st.target] if isinstance(st, (ast.AnnAssign, ast.AugAssign)) else []
+        val = getattr(st, "value", None)
+        if val is None:
+            continue
+        for tg in tgts:
+            for sub in (tg.elts if isinstance(tg, (ast.Tuple, ast.List)) else [tg]):
+                if isinstance(sub, (ast.Attribute, ast.Subscript)) and _root(sub) is not None:
+                    yield _root(sub), val
+
+
 def tainted_names(fn, src_name: str) -> set:
+    """Names through which an object of the caller may be reached: the parameter, locals bound from an expression that
+    mentions such a name (copier calls clean), and locals INTO which such an object was stored (`copy.pipeline =
+    self.pipeline`: the copy now holds the caller's pipeline)."""
     t = {src_name}
     changed = True
     while changed:
@@ -823,6 +865,10 @@ def tainted_names(fn, src_name: str) -> set:
                     if n not in t:
                         t.add(n)
                         changed = True
+        for root, val in _stores(fn):
+            if root not in t and _mentions(val, t):
+                t.add(root)
+                changed = True
     return t
 
 
@@ -996,6 +1042,14 @@ def seed_kind(expr, fn, what: str, _depth: int = 0) -> str:
         plain = [st for st in ast.walk(fn) if isinstance(st, (ast.Assign, ast.AnnAssign)) and any(
             isinstance(t, ast.Name) and t.id == expr.id for t in (st.targets if isinstance(st, ast.Assign) else [st.target]))]
         if len(vals) == 1 and len(plain) == 1:
+            return seed_kind(vals[0], fn, what, _depth + 1)
+    if isinstance(expr, ast.Name) and expr.id not in _fn_params(fn) and not _rebound(fn, expr.id) and _depth < 3:
+        # a constant moved to module level: exactly one module-level assignment
+        tree = getattr(fn, "_tree", None)
+        vals = [st.value for st in (tree.body if tree is not None else []) if (
+            isinstance(st, ast.Assign) and any(expr.id in _target_names(t) for t in st.targets)) or (
+            isinstance(st, ast.AnnAssign) and st.value is not None and _target_names(st.target) == [expr.id])]
+        if len(vals) == 1 and isinstance(vals[0], ast.Constant):
             return seed_kind(vals[0], fn, what, _depth + 1)
     fail(expr, f"{what}: unrecognised seed expression")
 
@@ -1268,7 +1322,19 @@ def pickle_policy(proc_tree, grp_tree, proc_fields) -> tuple:
         return procs, [("models", "Deep")]
     if len(get) != 1 or len(sett) != 1:
         raise TranslationError("ModelGroup: __getstate__ and __setstate__ must both be defined (once)")
-    gb = body_no_doc(get[0])
+    gfn = nfind(grp_tree, "__getstate__", "ModelGroup", loops=False)
+    gb = body_no_doc(gfn)
+    # `return {...}` / `return dict(k=...)`, possibly through one named intermediate (`state = {...}; return state`)
+    if len(gb) == 2 and isinstance(gb[0], (ast.Assign, ast.AnnAssign)) and isinstance(gb[1], ast.Return) \
+            and isinstance(gb[1].value, ast.Name) and _target_names(
+                gb[0].targets[0] if isinstance(gb[0], ast.Assign) and len(gb[0].targets) == 1 else
+                getattr(gb[0], "target", ast.Pass())) == [gb[1].value.id] and gb[0].value is not None:
+        gb = [ast.copy_location(ast.Return(value=gb[0].value), gb[1])]
+    if len(gb) == 1 and isinstance(gb[0], ast.Return) and _is_call_to(gb[0].value, {"dict"}) and not gb[0].value.args \
+            and all(k.arg is not None for k in gb[0].value.keywords):
+        gb = [ast.copy_location(ast.Return(value=ast.Dict(
+            keys=[ast.Constant(value=k.arg) for k in gb[0].value.keywords],
+            values=[k.value for k in gb[0].value.keywords])), gb[0])]
     if not (len(gb) == 1 and isinstance(gb[0], ast.Return) and isinstance(gb[0].value, ast.Dict)):
         fail(get[0], "ModelGroup.__getstate__ must be `return {...}`")
     key = None
@@ -1286,7 +1352,7 @@ def pickle_policy(proc_tree, grp_tree, proc_fields) -> tuple:
         return procs, [("models", "Drop")]
     state = sett[0].args.args[1].arg if len(sett[0].args.args) > 1 else None
     mode = "Drop"
-    for st in body_no_doc(sett[0]):
+    for st in body_no_doc(nfind(grp_tree, "__setstate__", "ModelGroup", loops=False)):
         tgt = val = None
         if isinstance(st, ast.Assign) and len(st.targets) == 1:
             tgt, val = st.targets[0], st.value
